@@ -324,7 +324,8 @@ def _main(prop, args, seed, t0, workdir, logdir):
     jobs = []
     for i in range(nshards):
         job = {"mode": "search", "tier": tier, "seed": seed, "shard": i, "nshards": nshards, "muted": muted,
-               "budget_s": budget, "scale": args.scale}
+               "budget_s": budget, "scale": args.scale,
+               "flaky_is_violation": bool(getattr(mod, "FLAKY_IS_VIOLATION", False))}
         jobs.append(job)
     workers = [Worker(prop, j, f"shard{i}", workdir, logdir) for i, j in enumerate(jobs)]
     results = []
